@@ -2,7 +2,7 @@
 //   wkb-write            generated GTrees x every writer configuration, through GEOSWKBWriter_* and the
 //                        context-level legacy functions; expect = HEX of the bytes GEOS wrote
 //   wkb-read             valid encodings, structure-aware mutations, random bytes, HEX text;
-//                        expect = "err" | dumped tree (reader object and legacy function must agree)
+//                        expect = "err" | "crash" (caught SIGSEGV) | dumped tree (reader object and legacy function must agree)
 //   wkb-roundtrip        write then read inside GEOS; expect = dumped re-read tree (the driver prints what the
 //   wkb-roundtrip-mixed  property promises for the input); -mixed uses components of differing dimensions
 //   replay <file>        lines "<stream> <case>" -> prints "<expect>" per line
@@ -72,7 +72,7 @@ static std::string dumpOrErr(GEOSGeometry* g) { if (!g) return "err"; std::strin
 static std::string readGeos(int path, const unsigned char* p, size_t n, const std::string* hexText) {
     // path 0: reader object, 1: legacy.  hexText != null: HEX entry points
     g_armed = 1;
-    if (sigsetjmp(g_jmp, 1)) { g_crashes++; return "err"; }   // undefined behaviour in the library surfaced as SIGSEGV: counted, reported via STAT
+    if (sigsetjmp(g_jmp, 1)) { g_crashes++; return "crash"; }   // SIGSEGV/SIGBUS inside the library: a result the model never predicts -> reported as a violation
     GEOSGeometry* g = nullptr;
     if (path == 0) {
         GEOSWKBReader* r = GEOSWKBReader_create_r(H);
@@ -127,7 +127,7 @@ static std::string evalRoundtrip(const std::vector<std::string>& t, const std::s
     std::vector<unsigned char> b; std::string hx;
     if (!writeGeos(api, c, g.get(), b, hx)) return "write-failed";
     std::string back = hex ? readGeos(rpath, nullptr, 0, &hx) : readGeos(rpath, b.data(), b.size(), nullptr);
-    if (back == "err") return "err";
+    if (back == "err" || back == "crash") return back;
     // re-writing the re-read geometry must reproduce the bytes
     g_armed = 0;
     GEOSGeometry* g2 = hex ? GEOSGeomFromHEX_buf_r(H, (const unsigned char*) hx.data(), hx.size()) : GEOSGeomFromWKB_buf_r(H, b.data(), b.size());
@@ -238,7 +238,7 @@ static std::vector<std::vector<unsigned char>> guardCorpus() {
     std::vector<std::vector<unsigned char>> v;
     auto hdr = [](uint32_t type, uint32_t n) { std::vector<unsigned char> b{1}; for (int i = 0; i < 4; i++) b.push_back((unsigned char)(type >> (8 * i))); for (int i = 0; i < 4; i++) b.push_back((unsigned char)(n >> (8 * i))); return b; };
     static const uint32_t types[] = {2, 3, 4, 5, 6, 7, 8, 9, 10, 11, 12};
-    static const size_t units[] = {16, 4, 21, 9, 9, 9, 16, 16, 4, 9, 9};
+    static const size_t units[] = {16, 4, 21, 9, 9, 9, 16, 9, 4, 9, 9};
     for (int i = 0; i < 11; i++) for (uint32_t n = 0; n <= 3; n++) for (int d = -1; d <= 1; d++) {
         long len = (long) n * (long) units[i] + d; if (len < 0) continue;
         auto b = hdr(types[i], n); b.resize(b.size() + (size_t) len, 0); v.push_back(b);
@@ -327,7 +327,7 @@ int main(int argc, char** argv) {
                 cs = "H " + hx; out.count("entry_hex"); }
             else { cs = "B " + HEXUP(b.data(), b.size()); out.count("entry_binary"); }
             std::string e = evalCase(stream, cs); out.emit(cs, e);
-            out.count(label); out.count(e == "err" ? "result_err" : "result_ok"); out.count(std::string(e == "err" ? "err_" : "ok_") + label);
+            out.count(label); out.count(e == "err" ? "result_err" : e == "crash" ? "result_crash" : "result_ok"); out.count(std::string(e == "err" ? "err_" : "ok_") + label);
         }
     } else if (stream == "wkb-roundtrip" || stream == "wkb-roundtrip-mixed") {
         int mix = stream == "wkb-roundtrip" ? 0 : 100;
@@ -338,7 +338,7 @@ int main(int argc, char** argv) {
                 out.count("dims_" + std::to_string(c.dims)); if (e == "err") out.count("roundtrip_read_err"); }
         }
     } else { std::fprintf(stderr, "unknown stream %s\n", stream.c_str()); return 2; }
-    out.count("ub_crash_caught", g_crashes);
+    out.count("crash_caught", g_crashes);
     }
     GEOS_finish_r(H);
     return 0;
